@@ -33,6 +33,7 @@ func checkC01(p *Prog, r *Report) {
 	c01R3(p, r)
 	c01R4(p, r)
 	dayHandover(p, r, "C01.R5")
+	c01Sweeps(p, r)
 }
 
 // resolvePhi substitutes φ atoms of q by the value of arm k.
